@@ -5,7 +5,8 @@ from .. import pipeline, mqnet, protocol, pairfeed, netstall
 
 ID = 'C06'
 MODULES = ['OFModel.Zmq.Receiver', 'OFModel.Zmq.Sender', 'OFModel.Zmq.Pair', 'OFModel.Zmq.Net', 'OFModel.Gen.Facts']
-PROP_FILES = ['C06', 'PairRecv', 'PairSend', 'C06Live', 'PairFair', 'C06Fair', 'C06NetEdge', 'C06NetMeasure', 'C06Net']
+PROP_FILES = ['C06', 'PairRecv', 'PairSend', 'C06Live', 'PairFair', 'C06Fair', 'C06NetEdge', 'C06NetMeasure', 'C06Net',
+              'C06StarEdge', 'C06StarInv', 'C06StarMeasure', 'C06StarSem', 'C06Star']
 LEVEL = 'proof'
 RULE = ('(1) closed pair (OFProps/C06Live.lean): a REAL ZMQSender and a REAL ZMQReceiver wired through fakezmq run random schedules of send | recv | restart consumer | restart publisher '
         '(graceful or crash, anywhere), compared event by event with the Lean model OF.Pair (messages published, requests pushed, sets returned, client table, ids, buffers, channel lengths), '
@@ -15,6 +16,7 @@ RULE = ('(1) closed pair (OFProps/C06Live.lean): a REAL ZMQSender and a REAL ZMQ
         'fault = kill at a random virtual time + restart after {0, 0.3, 1, 7 s} | kill for ever (non-required consumer) | stall for 0.5-8 s; delays 0-60 ms. '
         'Oracle (exploration): within 15 virtual seconds after the fault ends every live sink has been handed a new frame, and sequence numbers stay strictly increasing at every node. '
         '(3) chain of 2-6 REAL MQ objects on fakezmq (OFProps/C06Net.lean, harness/ofverif/netstall.py): random restart-free reachable prefix, then either the explicit schedule of C06_net_chain_progress (send of the sink, then pull: 5 (L-1) + 2 events, 1-3 repetitions, any clock readings) or 5 (L-1) + 3 random FAIR rounds (every node recv and send at least once per round, random order / repetitions / clock steps up to beyond the connection time-out: C06_net_chain_fair_heals); oracle net-chain-no-progress: the real sink recv returned fewer new frame sets than proved; the same schedule through OF.Net (net.run), compared event by event. '
+        '(4) tee of 1-5 REAL MQ objects subscribed to one source (OFProps/C06Star.lean, harness/ofverif/netstall.py gen_star_trial / run_star): random restart-free reachable prefix, then the explicit schedule of C06_net_star_progress (6 b + 3 events, 1-3 repetitions, any clock readings) | 8 or 16 random FAIR rounds of all nodes at any clock steps (C06_net_star_fair_heals) | a random set of consumers falls SILENT and the explicit healing schedule of C06_net_star_heals_explicit runs (recv 0, send 0 now, then the progress schedule of the live consumers one connection time-out after the later of now and every t_last in the REAL client table) | the same with a random first phase of live events around recv 0 ... send 0 and then 8 / 16 random fair rounds of the LIVE nodes beyond that clock reading (C06_net_star_heals_after_silence_flush); oracle net-star-no-progress: the real recv of a LIVE consumer returned fewer new frame sets than proved; the same events through OF.Net (net.run), compared event by event. '
         'Plus the adversarial feeds of C01/C02 for the component tie.  non-trivial = a run in which the victim was hit while frames were flowing / a pair schedule with at least one restart')
 ASSUMPTIONS = ['partial by nature: proved are the schedule-independent unstick lemmas (re-request, handshake, fast-forward, newer-id adoption, eviction, required-output wait) and, for the closed pair of one publisher '
                'and one synchronised consumer, "no reachable deadlock": from every reachable state (any history, any restarts) an explicit continuation delivers a new frame (C06_pair_recovers), '
@@ -22,7 +24,8 @@ ASSUMPTIONS = ['partial by nature: proved are the schedule-independent unstick l
                'the pair model delivers messages immediately, loss-free and FIFO, and a restarted endpoint is reachable at once: libzmq connection establishment / reconnect timing and OS scheduling are not modelled '
                '(the theorem assumes nothing about channel contents, so it also covers loss and stale traffic; it does assume the continuation itself is delivered)',
                'chains of any length (C06_net_chain_progress / _fair_heals / _round_robin / _throughput): no restart-free reachable deadlock, a new frame set at the sink within 5 (L-1) + 3 fair rounds, hypotheses: no restarts in the history or the continuation, the source always has a next frame and every relay forwards every set (FwdAll), non-empty topic names; immediate loss-free delivery',
-               'liveness of tees and joins / chains with restarts / "within a bounded time" in seconds is explored on MQNet, not proved',
+               'tees (C06_net_star_progress / _fair_heals / _heals_after_silence(_flush) / _heals_explicit / _heals_throughput / _all_silent_blocks): source with b >= 1 sink consumers, no restart-free reachable deadlock, a new frame set at EVERY consumer within 8 fair rounds at ANY clock readings (bound independent of b, not tight), and after any set of consumers has fallen silent: every live consumer is served again once the clock has passed t_last + ZMQ_CONN_TIMEOUT of the silent ones (after one drain of the requests they left); hypotheses: no restarts, dict-like results (ProcNames), the source always has a next frame (SrcAll), immediate loss-free delivery',
+               'liveness of joins / trees with relays that have several consumers / chains with restarts / "within a bounded time" in seconds is explored on MQNet, not proved',
                'MQNet drops requests sent to a dead peer (libzmq would queue them up to the HWM and deliver them after the reconnect)']
 TRUSTED = ['MQNet event loop and fault injection (harness/ofverif/mqnet.py)', 'fake pyzmq surface harness/ofverif/fakezmq.py (in-process sockets, virtual clock) used by the pair rig']
 
@@ -231,6 +234,46 @@ def net_live_campaign(ctx, n):
     res.extra['net_live'] = hist
 
 
+def net_star_campaign(ctx, n):
+    """tee of 1-5 REAL MQ objects on fakezmq (OFProps/C06Star.lean): random restart-free reachable prefix, then one of the four kinds of continuation of
+    netstall.gen_star_trial (computed from the real state: the healing clock reading is read off the real client table); vs OF.Net event by event"""
+    import random
+    logging.disable(logging.CRITICAL)
+    res = ctx.result
+    rng = random.Random(ctx.rng.randrange(10**9))        # own stream: the campaigns that follow keep theirs
+    trials = [c['trial'] for c in ctx.corpus if c.get('feed') == 'net-star']
+    if ctx.replay: trials = [ctx.replay['case']['trial']] if ctx.replay.get('case', {}).get('feed') == 'net-star' else []; n = 0
+    for _ in range(n): trials.append(netstall.gen_star_trial(rng))
+    runs = [netstall.run_star(t) for t in trials]
+    model = ctx.driver.batch([netstall.model_request(t) for t in trials]) if ctx.driver else None
+    hist, rounds = {}, {}
+    for idx, (t, (obs, info)) in enumerate(zip(trials, runs)):
+        b = len(t['topo']['ups']) - 1
+        live = [j for j in range(1, b + 1) if j not in t['dead']]
+        moved = sum(1 for j in live if j in info['prev0'] and any(x > info['prev0'][j] for x in info['returned'][j]))
+        res.note({'feed': 'net-star', 'consumers': b, 'silent': t['dead'], 'mode': t['mode'], 'prefix_events': len(t['prefix']), 'continuation_events': len(t['stall']),
+                  'live_consumers_served': moved}, nontrivial=False)
+        if moved: res.nontrivial.add(f"net-star:{ctx.seed}:{idx}:{len(t['prefix'])}:{len(t['stall'])}")
+        k = f"{t['mode']}:b={b}:silent={len(t['dead'])}:served={moved}/{len(live)}"; hist[k] = hist.get(k, 0) + 1
+        if info.get('rounds_needed') is not None:
+            kk = f"{t['mode']}:{info['rounds_needed']}"; rounds[kk] = rounds.get(kk, 0) + 1
+        for key, what in netstall.star_oracle(t, info)[:1]:
+            res.violations.append(Violation(key, what, {'feed': 'net-star', 'trial': t}))
+        if model is not None:
+            r = model[idx]
+            if 'err' in r:
+                res.disagreements.append({'point': 'net.run', 'case': {'feed': 'net-star', 'trial': t}, 'impl': None, 'model': r}); continue
+            d = netstall.compare(t, obs, r)
+            if d is not None:
+                ci, a, b2 = d
+                evs = t['prefix'] + t['stall']
+                res.disagreements.append({'point': f'net-star event #{ci} {evs[ci] if ci < len(evs) else None}: real MQ objects vs OF.Net.step', 'case': {'feed': 'net-star', 'trial': t}, 'impl': a, 'model': b2})
+            else:
+                res.traces_validated += 1
+    res.extra['net_star'] = dict(sorted(hist.items()))
+    res.extra['net_star_fair_rounds_until_every_live_consumer_served(exploration; proved bound 8)'] = dict(sorted(rounds.items()))
+
+
 def run(ctx):
     logging.disable(logging.CRITICAL)
     res, rng = ctx.result, ctx.rng
@@ -257,3 +300,4 @@ def run(ctx):
     protocol.recv_campaign(ctx, 'C06', 300 if not ctx.thorough else 3000, ['wf', 'adv'])
     protocol.send_campaign(ctx, 'C06', 300 if not ctx.thorough else 3000, ['sync', 'adv'])
     net_live_campaign(ctx, 1500 if ctx.thorough else (400 if ctx.escalate else 120))     # last: the random stream of the campaigns above is unchanged
+    net_star_campaign(ctx, 1200 if ctx.thorough else (300 if ctx.escalate else 60))
